@@ -70,9 +70,9 @@ def inBox (p : P) (b : Box) : Prop :=
 /-- all direction components at most one in magnitude (true of unit vectors) -/
 def SubUnit (d : P) : Prop := -1 ≤ d.1 ∧ d.1 ≤ 1 ∧ -1 ≤ d.2.1 ∧ d.2.1 ≤ 1 ∧ -1 ≤ d.2.2 ∧ d.2.2 ≤ 1
 
-theorem absR_nonneg (x : Rat) : 0 ≤ absR x := by unfold absR; split <;> linarith
-theorem absR_eq_zero {x : Rat} (h : absR x = 0) : x = 0 := by
-  unfold absR at h; split at h <;> linarith
+theorem absQ_nonneg (x : Rat) : 0 ≤ absQ x := by unfold absQ; split <;> linarith
+theorem absQ_eq_zero {x : Rat} (h : absQ x = 0) : x = 0 := by
+  unfold absQ at h; split at h <;> linarith
 
 /-- the dominant component of a non-zero direction is non-zero -/
 theorem argmax_ne_zero (d : P) (hd : d ≠ (0, 0, 0)) : get d (argmaxAbs d) ≠ 0 := by
@@ -81,29 +81,29 @@ theorem argmax_ne_zero (d : P) (hd : d ≠ (0, 0, 0)) : get d (argmaxAbs d) ≠ 
   simp only
   intro h
   apply hd
-  have hx := absR_nonneg x; have hy := absR_nonneg y; have hz := absR_nonneg z
+  have hx := absQ_nonneg x; have hy := absQ_nonneg y; have hz := absQ_nonneg z
   split at h
   · next hc =>
     simp only [get] at h
     subst h
-    have h0 : absR (0 : Rat) = 0 := by simp [absR]
+    have h0 : absQ (0 : Rat) = 0 := by simp [absQ]
     rw [h0] at hc
-    rw [absR_eq_zero (le_antisymm hc.1 hy), absR_eq_zero (le_antisymm hc.2 hz)]
+    rw [absQ_eq_zero (le_antisymm hc.1 hy), absQ_eq_zero (le_antisymm hc.2 hz)]
   · next hc =>
     split at h
     · next hc2 =>
       simp only [get] at h
       subst h
-      have h0 : absR (0 : Rat) = 0 := by simp [absR]
+      have h0 : absQ (0 : Rat) = 0 := by simp [absQ]
       rw [h0] at hc2
-      have hz0 := absR_eq_zero (le_antisymm hc2 hz)
+      have hz0 := absQ_eq_zero (le_antisymm hc2 hz)
       subst hz0
       rw [h0] at hc
       exact absurd ⟨hx, hx⟩ hc
     · next hc2 =>
       simp only [get] at h
       subst h
-      have h0 : absR (0 : Rat) = 0 := by simp [absR]
+      have h0 : absQ (0 : Rat) = 0 := by simp [absQ]
       rw [h0] at hc2
       exact absurd hy hc2
 
